@@ -1,12 +1,13 @@
 import OmbottModel.Model.Multipart
 import OmbottModel.Model.MultipartSpec
 import OmbottModel.Gen.Multipart
+import OmbottModel.Lemmas.MultipartEatData
 /-!
 C06 — Multipart parsing is independent of how the body is split into reads.
 Property theorems only; helper lemmas live in `Lemmas/Multipart*.lean`.
 -/
 namespace Ombott.Multipart
-open Py
+open Py Spec
 
 /-! ### tie to the source: constants and the one regular expression -/
 
@@ -30,5 +31,33 @@ every string of length ≤ 5 over {CR, LF, x} and every start offset (2 0xx prob
 theorem end_headers_search_table :
     Gen.mpEndHeadersTable.all (fun r => endSearchCode (endHeadersSearch r.1 r.2.1) == r.2.2) = true := by
   decide +kernel
+
+/-! ### the delimiter scanner -/
+
+/-- The delimiter `CRLF--boundary` of a boundary the constructor accepts starts with CR and has
+no other CR; hence no proper prefix of it is also a suffix of it (it has no border): two
+different partial matches can never be alive at the same time. -/
+theorem token_no_border (boundary : Bytes) (hb : CR ∉ boundary) :
+    NB (delim boundary) ∧
+    ∀ k, 0 < k → k < (delim boundary).length → ¬ (delim boundary).take k <:+ delim boundary := by
+  have hnb : NB (delim boundary) := by
+    refine ⟨LF :: (HYPHENx2 ++ boundary), rfl, ?_⟩
+    simp only [HYPHENx2, List.cons_append, List.nil_append, List.mem_cons, not_or]
+    exact ⟨by decide, by decide, by decide, hb⟩
+  refine ⟨hnb, fun k hk hkl hs => ?_⟩
+  exact pm_unique hnb (delim boundary) k (delim boundary).length hk hkl (Nat.le_refl _) hs
+    (by unfold Pm; simp)
+
+/-- `_eat_data` (block-wise stride of one token length, `match_tail` on each block, the pending
+remainder `trest` carried within and across chunks, the short tail of the chunk) returns exactly
+what the byte-at-a-time scanner of the reference machine returns: the position where the
+delimiter is first completed, or `None` with `trest` = the remainder still expected after the
+`m'` bytes matched at the end.  For **arbitrary** chunk contents, start offset and pending
+state — not only for well-formed bodies. -/
+theorem eatData_refines_R (boundary chunk : Bytes) (base m : Nat) (hb : CR ∉ boundary)
+    (hm : m < (delim boundary).length) :
+    eatData (delim boundary) chunk base (trestOf (delim boundary) m) =
+      .ok (renderScan (delim boundary) base (scan (delim boundary) m (chunk.drop base))) :=
+  eatData_refines (token_no_border boundary hb).1 chunk base m hm
 
 end Ombott.Multipart
